@@ -187,6 +187,13 @@ def run_all(scs, par, v, cov):
             r2 = D.run_scenario(prepare(dict(sc, id=sc["id"] + "r")))
             r2["wall_s"] = round(time.time() - t0, 1)
             r2["retried"] = r.get("why")
+            if r2["outcome"] == "inconclusive" and r.get("why_code") == "unserved" and r2.get("why_code") == "unserved":
+                # twice in a row: every process alive after the restart, the cluster booted normally before, and it never
+                # serves again within many times its boot time -> the cluster does not come back (real violation)
+                r2["outcome"] = "violation"
+                r2["violations"] = [{"sig": {"branch": sc["cls"], "kind": "unavailable", "detail": "processes alive, no service"},
+                                     "what": "after the restart every node process is alive but the cluster does not answer any command "
+                                             "(two attempts; booted in %.1f s before the crash): %s" % (r2["facts"].get("boot_s", -1), r2.get("why")), "extra": {}}]
             r = r2
         if os.environ.get("VERIF_VERBOSE"):
             print("  scenario %s %-24s %-12s %5.1fs %s %s" % (r["id"], r["cls"], r["outcome"], r["wall_s"],
@@ -338,7 +345,20 @@ def main():
     must = ["one", "three_quick"] if tier == "quick" else ["one", "two", "three"]
     models = {}
     bg = concurrent.futures.ThreadPoolExecutor(max_workers=1)
-    fmodels = bg.submit(lambda: [model_must_hold(n, 6 if tier == "quick" else 10, "6g" if tier == "quick" else "16g", 1500, models) for n in must])
+
+    def bg_models():
+        for n in must:
+            model_must_hold(n, 6 if tier == "quick" else 10, "6g" if tier == "quick" else "16g", 1500, models)
+        if tier == "thorough":
+            # random simulation of the 3-node / 3-write instance WITHOUT the Serial restriction
+            r = tlc("sim", 6, "6g", 1500, args=("-simulate", "num=3000", "-depth", "160", "-seed", str(seed)))
+            common.tlc_ok(r, "MC_Cluster_sim (random simulation)")
+            import re
+            m = re.search(r"(\d+) states checked, (\d+) traces generated", r.out)
+            models["sim"] = {"states": 0, "transitions": 0, "simulated_states": int(m.group(1)) if m else 0,
+                             "simulated_traces": int(m.group(2)) if m else 0, "wall_s": round(r.wall, 1)}
+            must.append("sim")
+    fmodels = bg.submit(bg_models)
 
     # -- 2. B1: scenarios on real clusters
     scs = build_scenarios(tier, seed, classes, leads)
@@ -411,10 +431,11 @@ def main():
     print("C08: tier=%s seed=%d scenarios=%d %s classes_exercised=%d traces=%d events=%d model_states=%d wall=%.0fs" %
           (tier, seed, len(results), by_outcome, len(classes_exercised), len(traces), nev, states, time.time() - t0), flush=True)
     if not v.violations:
+        if divergences:
+            common.die_infra("conformance divergence without a reproduced property violation (see DIVERGENCE lines): the real nodes "
+                             "left the stage structure of Cluster.tla, but no scenario lost an acknowledged write")
         if demo is not None and not demo["ok"]:
             common.die_infra("trace-corruption demo: TraceCluster did not behave as required: %s" % demo)
-        if divergences:
-            common.die_infra("conformance divergence without a reproduced property violation (see DIVERGENCE lines)")
         if len(inconclusive) > max(3, len(results) // 4):
             common.die_infra("too many inconclusive scenarios: %s" % inconclusive[:5])
         if len(classes_exercised) < 2:
